@@ -411,6 +411,80 @@ func chainScenarios(yield func(any)) {
 	}
 }
 
+// decisionScenarios: the decision table of C11 on a built root -> sub hierarchy: the artifact of one entity is brought into each
+// state (complete, certificate only, key only, request instead of key, missing) and each reason is made to hold (none, certificate
+// expired while the configuration yields an unexpired one, configuration changed, configuration file newer, issuer's artifact newer),
+// then a run with every one of the 32 flag sets plans; a generate-all run and the two default runs close the history.
+func decisionScenarios(yield func(any)) {
+	states := []string{"full", "strip-key", "strip-cert", "csr-nokey", "delete"}
+	reasons := []string{"none", "expired", "changed", "touch", "issuer-newer"}
+	for tier := 0; tier < 2; tier++ {
+		for si, state := range states {
+			for ri, reason := range reasons {
+				if tier == 0 && reason == "issuer-newer" {
+					continue
+				}
+				for strat := 0; strat < 32; strat++ {
+					if !thorough() && !(strat == 2 || strat == 8 || strat == 10 || strat == 6 || strat == 12 || strat == 1 || (strat+si+ri+tier)%6 == 0) {
+						continue
+					}
+					ents := []entitySpec{
+						{alias: "root", path: "root.yaml", issuer: -1, cfg: J{"version": 1, "subject": "CN=Decision Root " + fmt.Sprint(rng.Intn(1000))}},
+						{alias: "sub", path: "sub.yaml", issuer: 0, cfg: J{"version": 1, "subject": "CN=Decision Sub", "issuer": "root"}},
+					}
+					e := ents[tier]
+					if reason == "expired" {
+						// no `from`: the end of validity is not part of the stored hash, so only the expiry rule can see the edit
+						e.cfg["validity"] = J{"until": "2001-02-03"}
+					}
+					files := []FileIn{cfgFile(ents[0]), cfgFile(ents[1])}
+					steps := []Step{{Op: "run", Strat: defaultStrat}}
+					switch reason {
+					case "expired":
+						c := cloneJ(e.cfg)
+						c["validity"] = J{"until": "2091-02-03"}
+						e.cfg = c
+						f := cfgFile(e)
+						steps = append(steps, Step{Op: "write", File: &f})
+					case "changed":
+						c := cloneJ(e.cfg)
+						c["subject"] = c["subject"].(string) + ",OU=Changed"
+						e.cfg = c
+						f := cfgFile(e)
+						steps = append(steps, Step{Op: "write", File: &f})
+					case "touch":
+						steps = append(steps, Step{Op: "touch", Path: e.path})
+					}
+					// the artifact is brought into its state after the configuration edit, so that (except for `touch`, which is
+					// applied last) the artifact file is the newer of the two and the file-time rule stays out of the way
+					switch state {
+					case "strip-key":
+						steps = append(steps, Step{Op: "strip", Path: pemPath(e.path), Block: "key"})
+					case "strip-cert":
+						steps = append(steps, Step{Op: "strip", Path: pemPath(e.path), Block: "cert"})
+					case "csr-nokey":
+						steps = append(steps, Step{Op: "addCsr", Path: pemPath(e.path), Block: "nokey"})
+					case "delete":
+						steps = append(steps, Step{Op: "delete", Path: pemPath(e.path)})
+					case "full":
+						if reason == "expired" || reason == "changed" {
+							steps = append(steps, Step{Op: "appendNote", Path: pemPath(e.path)})
+						}
+					}
+					if reason == "touch" && state != "full" {
+						steps = append(steps, Step{Op: "touch", Path: e.path})
+					}
+					if reason == "issuer-newer" {
+						steps = append(steps, Step{Op: "appendNote", Path: pemPath(ents[0].path)})
+					}
+					steps = append(steps, Step{Op: "run", Strat: strat}, Step{Op: "run", Strat: 31}, Step{Op: "run", Strat: defaultStrat}, Step{Op: "run", Strat: defaultStrat})
+					yield(HistIn{Tz: 0, Files: files, Steps: steps})
+				}
+			}
+		}
+	}
+}
+
 // profileScenarios: a built root -> leaf hierarchy whose profile is then edited so that the unchanged subject
 // no longer meets it (or still does); the next run, under every flag set, must stop at validation exactly when
 // the subject violates the edited profile; afterwards the profile is restored and the directory must converge.
@@ -486,6 +560,7 @@ func profileScenarios(yield func(any)) {
 func genHist(yield func(any)) {
 	chainScenarios(yield)
 	profileScenarios(yield)
+	decisionScenarios(yield)
 	tzs := []int{0, 3600, -5 * 3600, 19800}
 	strats := []int{defaultStrat, defaultStrat, defaultStrat, 1, 8, 4, 2, 16, 31, 13, 5, 0}
 	for n := 0; n < pick(120, 3000); n++ {
